@@ -264,8 +264,10 @@ func TestPropKeyedPRNG(t *testing.T) { propPRNG.Check(t) }
 // ---------------------------------------------------------------------------------------------------------------------
 
 type QPOp struct {
-	Kind   string `json:"kind"` // "read" | "new"
-	View   bool   `json:"view"` // call through AtLevel(LevelQ, LevelP)
+	Kind   string `json:"kind"`          // "read" | "new" | "withprng"
+	From   int    `json:"from"`          // sampler the step applies to: 0 = base, k = k-th sampler derived with WithPRNG (mod count)
+	Key    uint64 `json:"key,omitempty"` // withprng: key material of the new PRNG
+	View   bool   `json:"view"`          // call through AtLevel(LevelQ, LevelP)
 	LevelQ int    `json:"levelQ"`
 	LevelP int    `json:"levelP"` // -1: no P part
 }
@@ -290,7 +292,13 @@ func genQP(t *rapid.T) QPCase {
 	c.Key = rapid.Uint64().Draw(t, "key")
 	n := rapid.IntRange(1, 8).Draw(t, "nOps")
 	for i := 0; i < n; i++ {
-		op := QPOp{Kind: []string{"read", "new"}[rapid.IntRange(0, 1).Draw(t, fmt.Sprintf("k%d", i))]}
+		op := QPOp{Kind: []string{"read", "new", "read", "new", "withprng"}[rapid.IntRange(0, 4).Draw(t, fmt.Sprintf("k%d", i))]}
+		op.From = rapid.IntRange(0, 3).Draw(t, fmt.Sprintf("from%d", i))
+		if op.Kind == "withprng" {
+			op.Key = rapid.Uint64().Draw(t, fmt.Sprintf("prngKey%d", i))
+			c.Ops = append(c.Ops, op)
+			continue
+		}
 		op.View = rapid.IntRange(0, 3).Draw(t, fmt.Sprintf("v%d", i)) != 0
 		op.LevelQ, op.LevelP = len(c.Q)-1, len(c.P)-1
 		if op.View {
@@ -313,14 +321,25 @@ func runQP(c QPCase, rec *h.Rec) error {
 			return h.Failf("C17:setup:ring", "%v", err)
 		}
 	}
-	S := ringqp.NewUniformSampler(keyedPRNG(c.Key), rqp)
-	T := ringqp.NewUniformSampler(keyedPRNG(c.Key), rqp)
+	Ss := []ringqp.UniformSampler{ringqp.NewUniformSampler(keyedPRNG(c.Key), rqp)}
+	Ts := []ringqp.UniformSampler{ringqp.NewUniformSampler(keyedPRNG(c.Key), rqp)}
+	derived := false
 	N := 1 << c.LogN
 	rec.Classf("limbsQ=%d limbsP=%d", len(c.Q), len(c.P))
 
 	var firsts [][]uint64
 	levels := map[[2]int]bool{}
 	for oi, op := range c.Ops {
+		S, T := Ss[op.From%len(Ss)], Ts[op.From%len(Ts)]
+		if op.Kind == "withprng" {
+			// subject: derived with WithPRNG from a sampler that may have been read; twin: freshly constructed
+			k2 := h.NewSplitMix(c.Key ^ op.Key ^ uint64(oi+1)*0x9e3779b97f4a7c15).Uint64()
+			Ss = append(Ss, S.WithPRNG(keyedPRNG(k2)))
+			Ts = append(Ts, ringqp.NewUniformSampler(keyedPRNG(k2), rqp))
+			derived = true
+			rec.Class("withprng")
+			continue
+		}
 		s, tw := S, T
 		if op.View {
 			s, tw = S.AtLevel(op.LevelQ, op.LevelP), T.AtLevel(op.LevelQ, op.LevelP)
@@ -345,6 +364,9 @@ func runQP(c QPCase, rec *h.Rec) error {
 			tw.Read(b)
 		}
 		if !polyEqual(a.Q, b.Q) || !polyEqual(a.P, b.P) {
+			if derived {
+				return h.Failf("C17:ringqp:WithPRNG:derived-or-parent-differs-from-fresh-twin", "op %d: after WithPRNG the subject (derived sampler or its parent) and the twin (freshly constructed sampler over an identically keyed PRNG, parent that never derived) differ", oi)
+			}
 			return h.Failf("C17:ringqp:twin-not-bit-identical", "op %d: two samplers with the same key and call history differ", oi)
 		}
 		for j := 0; j <= op.LevelQ; j++ {
@@ -381,8 +403,8 @@ func runQP(c QPCase, rec *h.Rec) error {
 			}
 		}
 	}
-	if len(c.Ops) >= 3 && len(levels) >= 2 {
-		rec.NonTrivial(fmt.Sprintf("logN=%d Q=%d P=%d ops=%d levels=%d", c.LogN, len(c.Q), len(c.P), len(c.Ops)/3, len(levels)))
+	if len(c.Ops) >= 3 && (len(levels) >= 2 || derived) {
+		rec.NonTrivial(fmt.Sprintf("logN=%d Q=%d P=%d ops=%d levels=%d withprng=%v", c.LogN, len(c.Q), len(c.P), len(c.Ops)/3, len(levels), derived))
 	}
 	return nil
 }
@@ -725,3 +747,99 @@ func runCRP(c CRPCase, rec *h.Rec) error {
 var propCRP = h.NewProp("TestPropSampleCRP", h.Budget{Quick: 200, Thorough: 4000}, genCRP, runCRP)
 
 func TestPropSampleCRP(t *testing.T) { propCRP.Check(t) }
+
+// ---------------------------------------------------------------------------------------------------------------------
+// rlwe.Encryptor.WithPRNG: the mask c1 of the derived encryptor is determined by the PRNG it was given
+// ---------------------------------------------------------------------------------------------------------------------
+
+type EncPRNGCase struct {
+	Params h.RLWESpec `json:"params"`
+	Seed   uint64     `json:"seed"`
+	Key    uint64     `json:"key"`
+	Warm   []int      `json:"warm"`   // levels of the encryptions done by the parent before WithPRNG
+	Levels []int      `json:"levels"` // levels of the encryptions done by the derived encryptor, each followed by one of the parent
+}
+
+func (c EncPRNGCase) RandSeed() uint64 { return c.Seed }
+
+func genEncPRNG(t *rapid.T) EncPRNGCase {
+	var c EncPRNGCase
+	c.Params = h.GenRLWESpec(t, rlweOpts)
+	c.Seed = rapid.Uint64().Draw(t, "seed")
+	c.Key = rapid.Uint64().Draw(t, "key")
+	maxL := len(c.Params.Q) - 1
+	c.Warm = rapid.SliceOfN(rapid.IntRange(0, maxL), 0, 3).Draw(t, "warm")
+	c.Levels = rapid.SliceOfN(rapid.IntRange(0, maxL), 1, 4).Draw(t, "levels")
+	return c
+}
+
+func runEncPRNG(c EncPRNGCase, rec *h.Rec) error {
+	params, err := c.Params.Build()
+	if err != nil {
+		return h.Failf("C17:setup:params", "%v", err)
+	}
+	// two identical parents (same harness seed => same internal PRNG keys). Both derive an encryptor, over DIFFERENT
+	// PRNGs: the derived encryptor shares the error sampler (and through it the parent's PRNG) with its parent by design,
+	// so the parents stay in step only if both do the same derived encryptions; what must not matter is the derived key.
+	mk := func() (*rlwe.Encryptor, *rlwe.SecretKey) {
+		h.SeedRand(c.Seed)
+		sk := rlwe.NewKeyGenerator(params).GenSecretKeyNew()
+		return rlwe.NewEncryptor(params, sk), sk
+	}
+	A, _ := mk()
+	B, _ := mk()
+	enc := func(e *rlwe.Encryptor, lvl int) (*rlwe.Ciphertext, error) {
+		ct := rlwe.NewCiphertext(params, 1, lvl)
+		if err := e.EncryptZero(ct); err != nil {
+			return nil, h.Failf("C17:encryptor:error", "EncryptZero at level %d: %v", lvl, err)
+		}
+		return ct, nil
+	}
+	for _, l := range c.Warm {
+		if _, err := enc(A, l); err != nil {
+			return err
+		}
+		if _, err := enc(B, l); err != nil {
+			return err
+		}
+	}
+	D := A.WithPRNG(keyedPRNG(c.Key))
+	DB := B.WithPRNG(keyedPRNG(c.Key ^ 0x5555))
+	fresh := ringqp.NewUniformSampler(keyedPRNG(c.Key), *params.RingQP())
+	for i, l := range c.Levels {
+		ct, err := enc(D, l)
+		if err != nil {
+			return err
+		}
+		// secret-key encryption: c1 is the uniform mask itself (sampled in the NTT domain, or NTT followed by INTT)
+		want := ring.NewPoly(params.N(), l)
+		fresh.AtLevel(l, -1).Read(ringqp.Poly{Q: want})
+		if !polyEqual(ct.Value[1], want) {
+			return h.Failf("C17:encryptor:WithPRNG:mask-not-determined-by-prng", "encryption %d (level %d) of the encryptor derived with WithPRNG after %d parent encryptions: c1 differs from what a fresh uniform sampler over an identically keyed PRNG returns for the same calls", i, l, len(c.Warm))
+		}
+		if _, err := enc(DB, l); err != nil {
+			return err
+		}
+		// the parent's mask stream does not depend on the PRNG of the derived encryptor
+		ca, err := enc(A, l)
+		if err != nil {
+			return err
+		}
+		cb, err := enc(B, l)
+		if err != nil {
+			return err
+		}
+		if !polyEqual(ca.Value[1], cb.Value[1]) {
+			return h.Failf("C17:encryptor:WithPRNG:parent-mask-stream-disturbed", "after encryption %d of the derived encryptor the parent's c1 differs from that of an identical parent whose derived encryptor uses another PRNG", i)
+		}
+	}
+	rec.Classf("warm=%d", len(c.Warm))
+	if len(c.Warm) > 0 {
+		rec.NonTrivial(fmt.Sprintf("logN=%d Q=%d P=%d ntt=%v warm=%d n=%d", c.Params.LogN, len(c.Params.Q), len(c.Params.P), c.Params.NTT, len(c.Warm), len(c.Levels)))
+	}
+	return nil
+}
+
+var propEncPRNG = h.NewProp("TestPropEncryptorWithPRNG", h.Budget{Quick: 150, Thorough: 3000}, genEncPRNG, runEncPRNG)
+
+func TestPropEncryptorWithPRNG(t *testing.T) { propEncPRNG.Check(t) }
